@@ -17,7 +17,7 @@ def checks(build, procs, n, size=100, **kw):
 def plan_c20(tier, seed):
     if tier == "quick":
         # (plain: no sanitizer - the far-document form finds its addresses free there)
-        return checks("main", 4, 15000) + checks("plain", 1, 15000) + shards("main", "stride", 4)
+        return checks("main", 6, 60000) + checks("plain", 2, 60000) + shards("main", "stride", 4)
     return checks("main", 4, 200000) + checks("plain", 2, 100000) + shards("main", "all", 12) + shards("plain", "all", 4)
 
 
